@@ -235,6 +235,7 @@ func (p *Prog) reachGen(fn *ssa.Function, from ssa.Instruction, startBlock *ssa.
 		return nil, nil, false
 	}
 	type frame struct {
+		call ssa.CallInstruction // the call being explored (nil for a closure entered through a parameter)
 		b    *ssa.BasicBlock // block of the call in the caller
 		i    int             // index at which to resume
 		fn   *ssa.Function   // the callee being explored
@@ -299,7 +300,17 @@ func (p *Prog) reachGen(fn *ssa.Function, from ssa.Instruction, startBlock *ssa.
 				// the search started inside a helper that is analysed as in-line code: its
 				// return is not an exit, the path goes on behind every call of the helper
 				pcs := p.plainCallers(in.Parent())
-				if len(pcs) < len(p.callers[in.Parent()]) {
+				// a query about fn follows the helper back into fn only (when fn calls it at all)
+				var own []*ssa.Call
+				for _, cs := range pcs {
+					if topParent(cs.Parent()) == topParent(fn) || p.sameFn(topParent(cs.Parent()), topParent(fn)) {
+						own = append(own, cs)
+					}
+				}
+				if len(own) > 0 && in.Parent() != fn {
+					pcs = own
+				}
+				if len(p.plainCallers(in.Parent())) < len(p.callers[in.Parent()]) {
 					// also started by go / defer: there the return is a real exit
 					if target(in) {
 						return in, trail(s), true
@@ -323,6 +334,33 @@ func (p *Prog) reachGen(fn *ssa.Function, from ssa.Instruction, startBlock *ssa.
 				blocked = true
 				break
 			}
+			if !p.noDescend && s.stack != nil {
+				// a call of a func-typed parameter inside a helper explored in line: enter the closure
+				// that this very call of the helper passed
+				if dc, ok := in.(*ssa.Call); ok && !dc.Common().IsInvoke() {
+					if prm, isP := dc.Common().Value.(*ssa.Parameter); isP {
+						var cl *ssa.Function
+						for fr := s.stack; fr != nil && cl == nil; fr = fr.next {
+							if fr.call != nil && fr.fn == prm.Parent() {
+								cl = p.closureArgs(fr.call, fr.fn)[prm]
+								break
+							}
+						}
+						if cl != nil && s.stack.dep < 4 {
+							nf := &frame{b: s.b, i: i + 1, fn: cl, next: s.stack, dep: s.stack.dep + 1}
+							nf.sig = fmt.Sprintf("%s>%p:c", sigOf(s.stack), in)
+							key := fmt.Sprintf("%s|enter|%s", nf.sig, s.f.sig())
+							if !seen[key] {
+								seen[key] = true
+								n++
+								queue = append(queue, &state{b: cl.Blocks[0], f: s.f, parent: s, stack: nf})
+							}
+							blocked = true
+							break
+						}
+					}
+				}
+			}
 			if !p.noDescend {
 				if g := p.descendInto(in); g != nil {
 					dep := 0
@@ -334,13 +372,32 @@ func (p *Prog) reachGen(fn *ssa.Function, from ssa.Instruction, startBlock *ssa.
 						}
 					}
 					if dep < 3 && !onStack {
-						nf := &frame{b: s.b, i: i + 1, fn: g, next: s.stack, dep: dep + 1}
+						nf := &frame{call: in.(*ssa.Call), b: s.b, i: i + 1, fn: g, next: s.stack, dep: dep + 1}
 						nf.sig = fmt.Sprintf("%s>%p:%d", sigOf(s.stack), in, dep)
-						key := fmt.Sprintf("%s|enter|%s", nf.sig, s.f.sig())
+						// what the path knows about an argument it knows about the parameter
+						ef := s.f
+						if len(s.f) > 0 {
+							args := in.(*ssa.Call).Common().Args
+							for pi, prm := range g.Params {
+								if pi >= len(args) {
+									break
+								}
+								av := p.canon(args[pi])
+								for k, v := range s.f {
+									if k.v == av {
+										if &ef == &s.f || len(ef) == len(s.f) {
+											ef = s.f.clone()
+										}
+										ef[factKey{prm, k.c}] = v
+									}
+								}
+							}
+						}
+						key := fmt.Sprintf("%s|enter|%s", nf.sig, ef.sig())
 						if !seen[key] {
 							seen[key] = true
 							n++
-							queue = append(queue, &state{b: g.Blocks[0], f: s.f, parent: s, stack: nf})
+							queue = append(queue, &state{b: g.Blocks[0], f: ef, parent: s, stack: nf})
 						}
 						blocked = true
 						break
